@@ -21,14 +21,14 @@ PROPERTY = "C17"
 RULE = (
     "history (<=20 quick / <=50 thorough steps) over one root probe on fa(w as b0, !u as b1): {attach stage "
     "(accum, getitem, map, filter | count, sum, min, max, last, take_last), activate (with / values() / "
-    "global), call <plan>, deactivate (normal / by exception / deactivate()), re-activation attempt, "
+    "global), call <plan>, deactivate (normal / by exception / deactivate()), re-activation attempt, redundant second deactivation, "
     "background probe on/off}. evaluations = operations applied. Non-trivial = >=1 stage attached "
     "mid-stream, >=1 reducing stage, and events both inside and outside the active period; distinct by "
     "history hash."
 )
 ASSUMPTIONS = [
     "deactivating while a strict reducer (min/max/last/sum) has seen no event raises by giving's contract: the model forbids that step (counted)",
-    "double deactivation is outside the domain",
+    "a redundant second deactivation may raise or be ignored; it must not disturb anything (it is in the quantified operation set)",
 ]
 
 SEL = G.CallN("fa", None, (G.Cap("w", "b0", None, None, "=", 0), G.Cap("u", "b1", None, None, "=", 1)), ())
@@ -188,6 +188,33 @@ class Sim:
             raise PropertyViolation("reactivate", f"the refused second activation disturbed state: {before} -> {after}")
         self.flags.add("reactivate-" + self.phase)
 
+    def op_redeactivate(self):
+        """A redundant second deactivation may be refused (raise) or ignored, but it must not
+        complete the stream again, touch the instrumentation or disturb other probes."""
+        if self.phase != "done":
+            return
+        before = self.snapshot()
+        try:
+            if self.how == "global":
+                self.probe.deactivate()
+            else:
+                self.probe.__exit__(None, None, None)
+        except BaseException:
+            pass
+        after = self.snapshot()
+        # stages attached only after the first deactivation may receive the completion of their
+        # (empty) stream now - exactly one result computed from no events; everything else
+        # (instrumentation, handlers, stages that were already completed) must be unchanged
+        live = [i for i, s_ in enumerate(self.sinks) if s_["live"]]
+        b = before[:3] + (tuple(before[3][i] for i in live),)
+        a = after[:3] + (tuple(after[3][i] for i in live),)
+        if b != a:
+            raise PropertyViolation("redeactivate", f"a redundant second deactivation disturbed state: {before} -> {after}")
+        for s_ in self.sinks:
+            if not s_["live"] and list(s_["sink"]):
+                s_["late_completed"] = True
+        self.flags.add("redeactivate")
+
     def op_bg(self, on):
         from ptera.probe import Probe
 
@@ -228,7 +255,7 @@ class Sim:
     def check(self):
         for i, s in enumerate(self.sinks):
             evs = self.delivered[s["start"]:] if s["live"] else []
-            want = ref_stage(s["kind"], evs, s.get("completed", False))
+            want = ref_stage(s["kind"], evs, s.get("completed", False) or s.get("late_completed", False))
             got = list(s["sink"])
             if got != want:
                 raise PropertyViolation(
@@ -343,6 +370,11 @@ def make_machine(rec):
         @rule()
         def reactivate(self):
             self._do(("reactivate",))
+
+        @precondition(lambda self: self.sim.phase == "done")
+        @rule()
+        def redeactivate(self):
+            self._do(("redeactivate",))
 
         @rule(on=st.booleans())
         def bg(self, on):
